@@ -197,7 +197,19 @@ def run(prog, rep):
                     order.append(f.callee(n)['n'])
             ins = [i for i, x in enumerate(order) if x in ('insert', 'emplace_hint', 'emplace', 'try_emplace')]
             site = pq
-            if 'clear' in order and ins and order.index('clear') < ins[0]:
+            # every normal exit of the loader passes through clear() (also when the archive holds nothing: the result is then empty)
+            unclear = None
+            for path, dec, knd in CFG(f).paths(max_paths=5000):
+                if knd != 'return':
+                    continue
+                ops = [f.callee(n)['n'] for n in CFG(f).path_nodes(path) if n['k'] == 'CXXMemberCallExpr' and receiver_is(f, n, d)]
+                if 'clear' not in ops:
+                    unclear = ops
+                    break
+            if unclear is not None:
+                rep.finding('R18.1b', site + '|exit without clear', f.loc(), '%s has a normal exit that never clear()s the target (operations on that path: %s): '
+                            'the previous content survives when the loader takes it' % (pq, unclear), {'instantiation': f.id}, func=f.id)
+            elif 'clear' in order and ins and order.index('clear') < ins[0]:
                 rep.ok('R18.1b', site + '|' + f.sym.get('targs', '')[:60], sample={'loader': pq, 'container_ops': order})
             else:
                 rep.finding('R18.1b', site, f.loc(), '%s does not clear() the target before inserting the loaded elements (operations: %s): '
